@@ -101,7 +101,7 @@ func (f *fileStorage) filePathToFile(file string) string {
 }
 
 func (f *fileStorage) fileForWrite(key string) (*os.File, error) {
-	return os.OpenFile(f.filePathToFile(key), os.O_WRONLY|os.O_CREATE, 0666)
+	return os.OpenFile(f.filePathToFile(key), os.O_WRONLY|os.O_CREATE|os.O_TRUNC, 0666)
 }
 
 func (f *fileStorage) fileForRead(key string) (*os.File, error) {
